@@ -275,6 +275,16 @@ func checkMulti(t *Trace, want string, rng *RNG) *Result {
 			return res
 		}
 	}
+	if t.Sched != nil {
+		h := uint64(14695981039346656037)
+		for _, sg := range t.Sched.Segs {
+			for _, v := range []uint64{uint64(sg.Task), uint64(sg.Site), uint64(sg.Ticks)} {
+				h ^= v
+				h *= 1099511628211
+			}
+		}
+		res.SchedHash = h
+	}
 	res.NonTrivial = switches >= 2
 	res.States[fmt.Sprintf("multi|k=%d|sw=%d", len(t.Tasks), bucket(switches))] = true
 	return res
